@@ -9,8 +9,8 @@ where `exp`/`log` occur (transition density, grid log-weights) also run over `Fl
   wna_fq dim T q                                   -> ok n F Q  lin circ noise   (state/input description)
   wna_shape dim num                                -> ok rows cols draws | undefined
   samp n k S c_1..c_k nd d_1..d_nd                 -> ok (rows cols Y)*k pos      (k successive getNoiseSample)
-  wna_motion dim T q N skip exo exoskip S X out0 [G g] nd draws -> ok M pos
-  wna_trans dim T q N prev cur                     -> ok det quad_i.. dens_i..(Float)
+  wna_motion dim T q skip exo exoskip S [G g] k (N X out0)*k nd draws -> ok M_1 .. M_k pos   (k calls on one object)
+  wna_trans dim T q k (N prev cur)*k               -> ok det (quad_i.. dens_i..(Float))*k
   lti_state fr fc qr qc | lti_meas hr hc rr rc     -> accept | reject k
   linmodel n m idx.. rr rc                         -> accept H | reject k
   sim <traj> nops ops..                            -> ok out..
@@ -85,29 +85,46 @@ def samp : R String := do
 
 def wna_motion : R String := do
   let d ← dim; let T ← rat; let q ← rat
-  let N ← nat; let skip ← bool; let exo ← bool; let exoskip ← bool
+  let skip ← bool; let exo ← bool; let exoskip ← bool
   let n := d.n * 2
   let S ← matCM rat n n
-  let X ← matCM rat n N
-  let out0 ← matCM rat n N
-  let exoM ← if exo then do
+  let exoG ← if exo then do
       let G ← matCM rat n n
       let g ← vec rat n
-      pure (some ({ skipping := exoskip, f := fun (C : Mat Rat n N) => Mat.of fun i j => (G.mul C) i j + g i } : Exo Rat n N))
+      pure (some (G, g))
     else pure none
+  let k ← nat
+  let mut batches : Array (Σ N : Nat, Mat Rat n N × Mat Rat n N) := #[]
+  for _ in [0:k] do
+    let N ← nat
+    let X ← matCM rat n N
+    let out0 ← matCM rat n N
+    batches := batches.push ⟨N, X, out0⟩
   let nd ← nat
   let ds ← listOf nd rat
   done
   let _ := q
   let F := Mat.eval (wnaF d T)
-  let (M, r') := addMotion F S skip exoM X out0 ⟨streamOf ds.toArray, 0⟩
-  pure (join (["ok"] ++ outMatCM ratStr (Mat.eval M) ++ [toString r'.pos]))
+  -- successive calls on one object: the generator state threads through
+  let mut rng : Rng Rat := ⟨streamOf ds.toArray, 0⟩
+  let mut out : List String := ["ok"]
+  for ⟨N, X, out0⟩ in batches do
+    let exoM : Option (Exo Rat n N) := exoG.map fun (G, g) =>
+      { skipping := exoskip, f := fun (C : Mat Rat n N) => Mat.of fun i j => (G.mul C) i j + g i }
+    let (M, r') := addMotion F S skip exoM X out0 rng
+    out := out ++ outMatCM ratStr (Mat.eval M)
+    rng := r'
+  pure (join (out ++ [toString rng.pos]))
 
 def wna_trans : R String := do
-  let d ← dim; let T ← rat; let q ← rat; let N ← nat
+  let d ← dim; let T ← rat; let q ← rat; let k ← nat
   let n := d.n * 2
-  let prev ← matCM rat n N
-  let cur ← matCM rat n N
+  let mut batches : Array (Σ N : Nat, Mat Rat n N × Mat Rat n N) := #[]
+  for _ in [0:k] do
+    let N ← nat
+    let prev ← matCM rat n N
+    let cur ← matCM rat n N
+    batches := batches.push ⟨N, prev, cur⟩
   done
   let F := Mat.eval (wnaF d T)
   let Q := Mat.eval (wnaQ d T q)
@@ -116,14 +133,17 @@ def wna_trans : R String := do
   | some (Qi, detQ) =>
     let Qi := Mat.eval Qi
     if !(certInv n Q Qi) then pure "inv-cert-fail" else
-    -- exact quadratic forms of the residuals
-    let D := Mat.eval (cur.sub (F.mul prev))
-    let quads := (List.finRange N).map fun i => quadForm Qi (D.col i)
-    -- the model's density, executed over Float with the certified inverse / determinant
     let QiF := matF Qi
     let detF := ratToFloat detQ
-    let dens := wnaTransition (α := Float) (fun _ => QiF) (fun _ => detF) (matF F) (matF Q) (matF prev) (matF cur)
-    pure (join (["ok", ratStr detQ] ++ quads.map ratStr ++ outVec floatStr dens))
+    let mut out : List String := ["ok", ratStr detQ]
+    for ⟨N, prev, cur⟩ in batches do
+      -- exact quadratic forms of the residuals
+      let D := Mat.eval (cur.sub (F.mul prev))
+      let quads := (List.finRange N).map fun i => quadForm Qi (D.col i)
+      -- the model's density, executed over Float with the certified inverse / determinant
+      let dens := wnaTransition (α := Float) (fun _ => QiF) (fun _ => detF) (matF F) (matF Q) (matF prev) (matF cur)
+      out := out ++ quads.map ratStr ++ outVec floatStr dens
+    pure (join out)
 
 def lti_state : R String := do
   let fr ← nat; let fc ← nat; let qr ← nat; let qc ← nat
